@@ -8,6 +8,8 @@ import (
 	"strings"
 
 	"github.com/ipfs/go-graphsync"
+	gsimpl "github.com/ipfs/go-graphsync/impl"
+	gsmsg "github.com/ipfs/go-graphsync/message"
 	"github.com/ipfs/go-graphsync/zzverif/vsched"
 	"github.com/libp2p/go-libp2p/core/peer"
 
@@ -43,6 +45,7 @@ type c06Obs struct {
 	panicked          string
 	nWire             int
 	inflightAtUnpause int
+	pauseErr          string
 }
 
 func c06Run(cfg vsched.Config, cs c06Case) (*c06Obs, *vsched.Sched) {
@@ -53,7 +56,25 @@ func c06Run(cfg vsched.Config, cs c06Case) (*c06Obs, *vsched.Sched) {
 		f := harness.NewFixture(true)
 		qs, rs := d.Stores(cs.Split)
 		q := f.AddNode(peer.ID("Q"), qs)
-		r := f.AddNode(peer.ID("R"), rs)
+		var ropts []gsimpl.Option
+		if cs.Mode == "resp-api-held" {
+			// a one-block allowance: while a send is stalled the traversal waits for memory, so the API pause
+			// is picked up at whatever link comes next once the send is released
+			one := 0
+			for _, b := range d.Data {
+				one = max(one, len(b))
+			}
+			ropts = append(ropts, gsimpl.MaxMemoryPerPeerResponder(uint64(one)))
+		}
+		r := f.AddNode(peer.ID("R"), rs, ropts...)
+		if cs.Mode == "resp-api-held" {
+			f.Net.SendFault = func(from, to peer.ID, k int, m gsmsg.GraphSyncMessage) harness.FaultAction {
+				if from == r.ID && k >= cs.At {
+					return harness.SendHold
+				}
+				return harness.SendOK
+			}
+		}
 		id := harness.MkID(1)
 		hookPaused := false // set by a hook when it asks for the pause
 		apiPaused := false
@@ -111,6 +132,21 @@ func c06Run(cfg vsched.Config, cs c06Case) (*c06Obs, *vsched.Sched) {
 		side := q
 		if strings.HasPrefix(cs.Mode, "resp") {
 			side = r
+		}
+		if cs.Mode == "resp-api-held" {
+			released, tried := false, false
+			evs = append([]*harness.Event{
+				{Name: "pause", Enabled: func() bool { return !tried && f.Net.Held > 0 && !res.Closed() }, Do: func() {
+					tried = true
+					if err := side.GS.Pause(context.Background(), id); err == nil {
+						apiPaused = true
+					} else {
+						st := r.GS.Stats()
+						o.pauseErr = fmt.Sprintf("%s; states=%v stats=%+v held=%d wire=%d", err.Error(), r.GS.(*gsimpl.GraphSync).PeerState(q.ID).IncomingState.RequestStates, st.OutgoingResponses, f.Net.Held, len(f.Net.Wire))
+					}
+				}},
+				{Name: "release", Enabled: func() bool { return !released && f.Net.Held > 0 && tried }, Do: func() { released = true; f.Net.ReleaseHeld() }},
+			}, evs...)
 		}
 		if strings.HasSuffix(cs.Mode, "-api") {
 			evs = append([]*harness.Event{{
@@ -209,7 +245,8 @@ func c06Cases(thorough bool) []c06Case {
 	var out []c06Case
 	shapes := harness.Shapes(3, 1, false, false, false)
 	chain4 := harness.Shape{Name: "chain4", Blocks: []harness.BlockSpec{{Edges: []harness.Edge{{To: 1}}}, {Edges: []harness.Edge{{To: 2, Form: harness.Inline}}}, {Edges: []harness.Edge{{To: 3, Form: harness.List}}}, {}}}
-	shapes = append(shapes, chain4)
+	fan4 := harness.Shape{Name: "fan4", Blocks: []harness.BlockSpec{{Edges: []harness.Edge{{To: 1}, {To: 2, Form: harness.Inline}, {To: 3, Form: harness.List}}}, {}, {}, {}}}
+	shapes = append(shapes, chain4, fan4)
 	if thorough {
 		shapes = harness.Shapes(4, 1, true, true, true)
 	}
@@ -240,17 +277,20 @@ func c06Cases(thorough bool) []c06Case {
 			if lacksQ == 0 {
 				continue
 			}
-			if !thorough && (lacksR > 1 || (n >= 4 && lacksR > 0 && sp[n-1]&2 != 0)) {
+			if !thorough && (lacksR > 1 || (n >= 4 && lacksR > 0 && sp[n-1]&2 != 0 && sh.Name != "fan4") || (sh.Name == "fan4" && lacksQ < 3)) {
 				continue
 			}
 			splits = append(splits, sp)
 		}
 		for _, sn := range sels {
 			for _, sp := range splits {
-				for _, mode := range []string{"req-hook", "resp-hook", "resp-reqhook", "req-api", "resp-api"} {
+				for _, mode := range []string{"req-hook", "resp-hook", "resp-reqhook", "req-api", "resp-api", "resp-api-held"} {
 					lo, hi := 1, n
 					if mode == "resp-reqhook" {
 						lo, hi = 1, 1
+					}
+					if mode == "resp-api-held" {
+						lo, hi = 0, n
 					}
 					if strings.HasSuffix(mode, "-api") {
 						lo, hi = 0, 4
@@ -298,7 +338,7 @@ func runC06(c *core.Ctx) {
 
 func init() {
 	core.Register(&core.Prop{ID: "C06", Level: "model_checking",
-		Rule:        "shapes (N<=3 + a 4-chain; thorough N<=4 catalogue) x splits (responder holds the root, requestor lacks something, responder lacks <=1 block in quick) x selectors x pause by {requestor block hook, responder block hook at block 1..N, responder request hook, requestor API, responder API after 0..4 deliveries}; network gated: after every event (deliver next message on a link, pause call, unpause call) the two real instances run to quiescence; every order of events within the deviation bound from the natural order (deliver everything, resume last) is executed; a class is (pause kind, pause happened, number of events)",
+		Rule:        "shapes (N<=3 + a 4-chain; thorough N<=4 catalogue) x splits (responder holds the root, requestor lacks something, responder lacks <=1 block in quick) x selectors x pause by {requestor block hook, responder block hook at block 1..N, responder request hook, requestor API, responder API after 0..4 deliveries, responder API while a send from index k on is stalled under a one-block allowance (the pause lands on whatever link comes next, present or missing)}; network gated: after every event (deliver next message on a link, pause call, unpause call) the two real instances run to quiescence; every order of events within the deviation bound from the natural order (deliver everything, resume last) is executed; a class is (pause kind, pause happened, number of events)",
 		Assumptions: []string{"differential oracle: the same configuration run uninterrupted (C02 ties that to the reference traversal)", "event-level interleavings (message granularity); schedules inside one event are the default", "an unpause that is refused because the pause has not taken effect yet is retried"},
 		Run:         runC06, QuickBudget: 300, ThoroughBudget: 2400,
 		Replay: func(raw json.RawMessage) string {
@@ -313,6 +353,6 @@ func init() {
 			if v := c06Judge(w.Label, o); v != nil {
 				return v.Signature + ": " + v.What
 			}
-			return "ok"
+			return fmt.Sprintf("ok (paused=%v events=%v blocksWhilePaused=%d pauseErr=%q)", o.paused, o.trace, o.blocksWhilePaused, o.pauseErr)
 		}})
 }
